@@ -177,6 +177,10 @@ def io_dual(ctx):
     if off:
         ctx.check(_guarded_by_alignment(gm, off[0], m), off[0], "under the alignment guard")
         ctx.check(gm.every_path_to(gm.nodes_of_all([c for c in calls_in(m) if call_name(c) == "unpickler.file_handle.read"]), gm.nodes_of_all(cp)), cp[0], "tell() is taken before the length byte is read")
+    co = [n for n in nodes_of_type(m, ast.If) if unparse(n.test) == "unpickler.mmap_mode == 'w+'" and any(unparse(s_) == "unpickler.mmap_mode = 'r+'" for s_ in n.body)]
+    mk_ = [c for c in calls_in(m) if call_name(c) == "make_memmap"]
+    ctx.check(bool(co) and mk_ and gm.every_path_to(gm.nodes_of_all(mk_), gm.nodes_of_all(co)), co[0] if co else m, "read_mmap coerces 'w+' to 'r+' before mapping (loading never zeroes the file)",
+              "read_mmap can map the file with mode 'w+', which truncates it")
     sk = [c for c in calls_in(m) if call_name(c) == "unpickler.file_handle.seek"]
     ctx.check(len(sk) == 1 and unparse(sk[0].args[0]) == "offset + marray.nbytes", sk[0] if sk else m, "read_mmap leaves the file position right after the payload")
     # payload
@@ -291,6 +295,21 @@ def byteorder(ctx):
     ctx.check(bool(c) and is_const(kwarg(c[0], "ensure_native_byte_order"), False), c[0] if c else lt, "temporary memmaps for workers are never byte-swapped")
     e = ctx.repo.func(NPU, "_ensure_native_byte_order")
     ctx.check("array.byteswap().view(array.dtype.newbyteorder('='))" in unparse(e.body[-2], 400) or any("byteswap" in unparse(s, 400) for s in e.body), e, "swap = byteswap + view with native dtype (values preserved)")
+    pr = ctx.repo.func(NPU, "_is_numpy_array_byte_order_mismatch")
+    rets_ = nodes_of_type(pr, ast.Return)
+    ctx.need(len(rets_) == 1 and isinstance(rets_[0].value, ast.BoolOp) and isinstance(rets_[0].value.op, ast.Or) and len(rets_[0].value.values) == 2, "byte-order predicate shape not recognised")
+    for side in rets_[0].value.values:
+        txt = ast.unparse(side)
+        host = "big" if "sys.byteorder == 'big'" in txt else "little" if "sys.byteorder == 'little'" in txt else None
+        foreign = {"big": "<", "little": ">"}.get(host)
+        quant = [c_ for c_ in ast.walk(side) if isinstance(c_, ast.Call) and call_name(c_) in ("all", "any")]
+        cmps = [const_value(c_.comparators[0]) for c_ in ast.walk(side) if isinstance(c_, ast.Compare) and "byteorder" in ast.unparse(c_.left) and "sys" not in ast.unparse(c_.left)]
+        ctx.check(host is not None and set(cmps) == {foreign, "|"}, side, "on a %s-endian host a mismatch means byte order %r (or a struct, '|')" % (host, foreign), "byte-order predicate compares with %s on a %s host" % (sorted(set(map(str, cmps))), host))
+        ctx.check(len(quant) == 1 and call_name(quant[0]) == "all", quant[0] if quant else side, "a structured dtype is foreign only if ALL its fields are (a swap of the whole record is then value-preserving)",
+                  "a structured dtype is treated as foreign when ANY field is: native fields of mixed-endian records are byte-swapped and corrupted")
+    en = ctx.repo.func(NPU, "_ensure_native_byte_order")
+    t_ = [n for n in nodes_of_type(en, ast.If) if isinstance(n.test, ast.Call) and call_name(n.test) == "_is_numpy_array_byte_order_mismatch"]
+    ctx.check(bool(t_), t_[0] if t_ else en, "the swap is applied iff the predicate holds")
     rd = F(ctx, W + ".read")
     asr = [n for n in body_walk(rd) if isinstance(n, ast.Assert)]
     ctx.check(bool(asr) and unparse(asr[0].test) == "not ensure_native_byte_order", asr[0] if asr else rd, "memory-mapped reads assert that no byte-order coercion was requested")
@@ -345,8 +364,18 @@ def reduce(ctx):
     for c in calls_in(tgt):
         if call_name(c) == "make_memmap":
             for k in ("dtype", "mode", "offset", "order", "unlink_on_gc_collect"):
+                kv_ = kwarg(c, k)
+                if k == "mode" and isinstance(kv_, ast.IfExp) and names_in(kv_) == {"mode"}:
+                    continue  # inline 'w+' -> 'r+' coercion, judged below
                 ctx.check(dotted(kwarg(c, k)) == k, c, "make_memmap %s=%s" % (k, k), "make_memmap gets %s=%s" % (k, unparse(kwarg(c, k)) if kwarg(c, k) is not None else None))
             ctx.check(dotted(c.args[0]) == "filename", c, "on the same file")
+    gt = cfg_of(tgt)
+    coerce = [n for n in nodes_of_type(tgt, ast.If) if unparse(n.test) == "mode == 'w+'" and any(unparse(s_) == "mode = 'r+'" for s_ in n.body)]
+    for c in [c for c in calls_in(tgt) if call_name(c) == "make_memmap"]:
+        mv = kwarg(c, "mode")
+        inline = isinstance(mv, ast.IfExp) and "'w+'" in unparse(mv) and "'r+'" in unparse(mv)
+        ctx.check(inline or (bool(coerce) and gt.every_path_to(gt.nodes_of(c), gt.nodes_of_all(coerce))), c, "mode 'w+' is coerced to 'r+' before this memmap is (re)opened (the data is not zeroed in the worker)",
+                  "this make_memmap call can receive mode 'w+': re-opening the file in the worker truncates and zeroes the parent's data")
     ast_ = [c for c in calls_in(tgt) if call_name(c) == "as_strided"]
     ctx.check(bool(ast_) and dotted(kwarg(ast_[0], "shape")) == "shape" and dotted(kwarg(ast_[0], "strides")) == "strides", ast_[0] if ast_ else tgt, "non-contiguous views are rebuilt with the original shape and strides")
     fw = ctx.repo.func(MR, "ArrayMemmapForwardReducer.__call__")
